@@ -38,8 +38,8 @@ HARNESS = {
                  'assume': 'true', 'call': 'check_c13_iter(&buf, count, 0, little, false)', 'unwind': 8},
     'c13_def': {'args': [('buf', 'u8x40'), ('count', 'u8'), ('little', 'bool')], 'bound': 'a 40-byte section, iteration from offset 0, count < 256: first record + its first auxiliary record + the step',
                 'assume': 'true', 'call': 'check_c13_iter(&buf, count, 0, little, true)', 'unwind': 8},
-    'c13_req': {'args': [('versym', 'u8x4'), ('need', 'u8x32'), ('strs', 'u8x6'), ('sym_idx', 'u8'), ('little', 'bool')], 'bound': 'one VerNeed record with one auxiliary record at offset 16, 2 versym entries, the fixed string table "\\0a\\0bc\\0"',
-                'assume': 'strs == [0u8, 97, 0, 98, 99, 0]', 'call': 'check_c13_req(&versym, &need, &strs, sym_idx, little)', 'unwind': 8},
+    'c13_req': {'args': [('versym', 'u8x4'), ('need', 'u8x32'), ('strs', 'u8x6'), ('sym_idx', 'u8'), ('little', 'bool')], 'bound': 'one VerNeed record with one auxiliary record at offset 16, 2 versym entries, the fixed string table "\\0a\\0bc\\0" with vn_file = 1 and vna_name = 3; symbolic: versym, vna_hash, vna_flags, vna_other, symbol index, byte order',
+                'assume': 'strs == [0u8, 97, 0, 98, 99, 0] && need[4..8] == (if little { [1u8, 0, 0, 0] } else { [0u8, 0, 0, 1] }) && need[24..28] == (if little { [3u8, 0, 0, 0] } else { [0u8, 0, 0, 3] }) && need[0..2] == (if little { [1u8, 0] } else { [0u8, 1] }) && need[2..4] == (if little { [1u8, 0] } else { [0u8, 1] }) && need[8..12] == (if little { [16u8, 0, 0, 0] } else { [0u8, 0, 0, 16] }) && need[12..16] == [0u8, 0, 0, 0]', 'call': 'check_c13_req(&versym, &need, &strs, sym_idx, little)', 'unwind': 8},
     'c10': {'args': [('ident', 'u8x16')], 'bound': 'none (all 16-byte idents)', 'assume': 'true', 'call': 'check_c10(&ident)', 'unwind': 6},
     'hash': {'args': [('buf', 'u8x5'), ('len', 'usize')], 'bound': 'name <= 5 bytes', 'assume': 'len <= 5', 'call': 'check_hash(&buf[..len])', 'unwind': 7},
 }
